@@ -101,6 +101,10 @@ type AuthorRequest struct {
 
 // Validate all fields on this type
 func (a *AuthorRequest) Validate() error {
+	// each of these has a one byte length or count field on the wire
+	if len(a.User) > 0xff || len(a.Port) > 0xff || len(a.RemAddr) > 0xff || len(a.Args) > 0xff {
+		return fmt.Errorf("user, port and rem_addr must not exceed 255 bytes each, nor args 255 entries")
+	}
 	// validate
 	for _, t := range []Field{a.Method, a.PrivLvl, a.Type, a.Service, a.User, a.Port, a.RemAddr} {
 		if err := t.Validate(a.Type); err != nil {
@@ -280,6 +284,10 @@ func NewAuthorReplyFromBytes(data []byte) (*AuthorReply, error) {
 
 // Validate all fields on this type
 func (a *AuthorReply) Validate() error {
+	// one byte argument count and two byte length fields on the wire
+	if len(a.Args) > 0xff || len(a.ServerMsg) > 0xffff || len(a.Data) > 0xffff {
+		return fmt.Errorf("args must not exceed 255 entries, nor server_msg and data 65535 bytes each")
+	}
 	// validate
 	for _, t := range []Field{a.Status, a.ServerMsg, a.Data} {
 		if err := t.Validate(nil); err != nil {
